@@ -93,8 +93,11 @@ class Fragment(AbstractApplication):
         non_pyld_size = orig_size - payload_size + 3 * pyld_size_enc
         LOGGER.info('Non-payload size %d', non_pyld_size)
         if non_pyld_size > mtu:
+            # it cannot be sent whole either
+            ctr.route = None
             raise RuntimeError('Non-payload size {} too large for route MTU {}'.format(orig_size, mtu))
 
+        fragments = []
         frag_offset = 0
         while frag_offset < len(payload_data):
             fctr = BundleContainer()
@@ -121,6 +124,8 @@ class Fragment(AbstractApplication):
             # zero-length payload has one-octet encoded bstr head
             frag_size = mtu - (non_pyld_size - 1 + pyld_size_enc)
             if frag_size <= 0:
+                # it cannot be sent whole either
+                ctr.route = None
                 raise RuntimeError('Payload size {} too large for route MTU {}'.format(frag_size, mtu))
 
             LOGGER.info('Fragment non-payload size %d, offset %d, (max) size %d', non_pyld_size, frag_offset, frag_size)
@@ -128,7 +133,10 @@ class Fragment(AbstractApplication):
             frag_offset += frag_size
 
             fctr.block_num(Bundle.BLOCK_NUM_PAYLOAD).setfieldval('btsd', frag_data)
+            fragments.append(fctr)
 
+        # only after all of them could be created
+        for fctr in fragments:
             glib.idle_add(self._agent.send_bundle, fctr)
 
         # internal action, not delete
